@@ -9,6 +9,7 @@ import (
 	"net/http"
 	"net/url"
 	"reflect"
+	"strconv"
 	"strings"
 
 	"github.com/flamego/flamego"
@@ -99,6 +100,12 @@ func c17describe(q *Sx, w *wireWriter, opt flamego.RenderOptions) *Sx {
 	default:
 		faithful = body == a[2].Bytes()
 	}
+	// a declared length that is not the length of what was written does not decode back on a real connection
+	if w.sentHdr != nil {
+		if cl := w.sentHdr.Get("Content-Length"); cl != "" && cl != strconv.Itoa(len(body)) {
+			faithful = false
+		}
+	}
 	return T("resp", I(w.status), X(ct), B(faithful), I(len(w.chunks)))
 }
 
@@ -162,7 +169,7 @@ func runC17(in *Sx) *Sx {
 
 func genC17(rng *rand.Rand, n int, tier string, emit func(*Sx)) {
 	strs := []string{"", "a", "hello world", "<&>\"'", "é☃", "line\nbreak", "\t", "{}[]", "100%", "%s %d%%", "x\x00y"}
-	codes := []int{200, 201, 202, 400, 404, 418, 500, 503}
+	codes := []int{200, 201, 202, 400, 404, 418, 500, 503, 299, 599, 700} // also codes net/http has no text for
 	for i := 0; i < n; i++ {
 		var reqs []*Sx
 		for k := 1 + rng.Intn(3); k > 0; k-- {
